@@ -489,7 +489,7 @@ class ActionTypeHint(Action):
         for key in [k for k in cfg.keys() if k.endswith("+")]:
             action = _find_action(parser, key[:-1])
             if ActionTypeHint.supports_append(action):
-                with parser_context(load_value_mode=parser.parser_mode):
+                with parser_context(parent_parser=parser, load_value_mode=parser.parser_mode):
                     val = action._check_type_(cfg[key], append=True, cfg=cfg)
                 cfg[key[:-1]] = val
                 cfg.pop(key)
